@@ -544,6 +544,13 @@ struct exec_client : public executor_listener
         log("{\"e\":\"x_starting\",\"atoms\":" + atoms_with(atms, true) + "}");
         std::unordered_map<const atom *, smt::rational> req;
         std::string r = "[";
+        if (g_scripted)
+            for (const auto &a : ordered(atms)) // atoms that entered the plan later (after a failure) get the next ranks
+                if (!g_rank.count(a))
+                {
+                    const int r = (int)g_rank.size();
+                    g_rank[a] = r;
+                }
         for (const auto &a : ordered(atms))
             if (g_scripted ? (g_rank.count(a) && g_xs_start.count(g_rank.at(a)) && g_xs_start.at(g_rank.at(a)).first-- > 0) : ((int)(rng() % 100) < p_delay_start))
             {
